@@ -25,7 +25,7 @@ MIN_WIDTH_CAPS_EXPAND = int(__import__("os").environ.get("VERIF_C07_MIN_WIDTH_CA
 FIXED_RAW_MAXIMUM = int(__import__("os").environ.get("VERIF_C07_FIXED_RAW_MAXIMUM", "1"))
 FLAGS = (LEADING_REPEAT, MIN_WIDTH_CAPS_EXPAND, FIXED_RAW_MAXIMUM)
 
-BOXES = [None, "HEAVY_HEAD", "ASCII", "SQUARE", "MINIMAL", "SIMPLE", "ROUNDED", "DOUBLE_EDGE", "HORIZONTALS", "SIMPLE_HEAVY",
+BOXES = [None, "HEAVY_HEAD", "CUSTOM", "ASCII", "SQUARE", "MINIMAL", "SIMPLE", "ROUNDED", "DOUBLE_EDGE", "HORIZONTALS", "SIMPLE_HEAVY",
          "MINIMAL_DOUBLE_HEAD", "ASCII_DOUBLE_HEAD", "HEAVY", "DOUBLE", "SQUARE_DOUBLE_HEAD", "MINIMAL_HEAVY_HEAD", "SIMPLE_HEAD",
          "HEAVY_EDGE", "ASCII2"]
 PADDINGS = [(0, 1), (0, 0), (1, 1), (0, 2, 0, 1), (1, 0, 1, 3), (0, 0, 0, 2), (1, 2), (0, 3, 1, 0), 2, (1,)]
@@ -72,7 +72,7 @@ def base_spec(rng, ncols, nrows, nested=True, plain_cols=False):
 
 def random_opts(rng):
     o = {
-        "box": rng.choice(BOXES[:4] + BOXES),
+        "box": rng.choice(BOXES[:5] + BOXES),
         "show_header": rng.random() < 0.75,
         "show_footer": rng.random() < 0.35,
         "show_edge": rng.random() < 0.7,
@@ -234,7 +234,9 @@ def table_jobs(ctx):
         variants += [{"box": "SQUARE", "leading": 2, "show_lines": True}, {"show_header": False, "show_footer": True},
                      {"show_footer": True, "show_lines": True}, {"show_footer": True, "leading": 1}, {"box": None, "show_edge": False},
                      {"pad_edge": False, "collapse_padding": True, "padding": (1, 2, 1, 3)}, {"expand": True, "min_width": 8},
-                     {"expand": True, "box": None}, {"box": "ASCII", "show_edge": False, "show_lines": True}]
+                     {"expand": True, "box": None}, {"box": "ASCII", "show_edge": False, "show_lines": True},
+                     {"box": "CUSTOM", "show_footer": True, "show_lines": True}, {"box": "CUSTOM", "show_footer": True, "leading": 1},
+                     {"box": "CUSTOM", "show_header": False, "show_edge": False, "show_lines": True}]
         specs = []
         for ov in variants:
             s = dict(spec, opts=dict(ov))
